@@ -174,6 +174,7 @@ def check(ck: Checker) -> None:
                 _check_overwrite(ck, fn, g, n, c, dest, guarded_removers, depth=0)
     ck.floor("C05.overwrite", link_calls_found, 2, "workspace-writing call sites")
 
+    _check_scan(ck, slice_)
     _check_incache(ck)
     _check_linkrecord(ck, slice_)
     _check_links(ck)
@@ -328,6 +329,30 @@ def _tree_entry_verdict(ck, dfn, te_call: ast.Call, fields: List[str]):
     if ok:
         return "lookup", "cache lookup of own oid"
     return "bad", f"cache_meta ({norm(cm)[:80]}) is not the cache lookup of the same entry's oid ({norm(oid)[:60]})"
+
+
+def _check_scan(ck: Checker, slice_) -> None:
+    """The scan of the current workspace (dry-run build) may only be abandoned because the path does
+    not exist: swallowing any other error leaves `old` empty, every entry then counts as 'added' and
+    is written without the guarded removal."""
+    n = 0
+    for fn in slice_:
+        g = ck.cfg(fn)
+        for nd in g.nodes.values():
+            if not any(call_name(c) == "build" for c in calls_at(nd)):
+                continue
+            hs = [g.nodes[d] for lab, d in nd.succ if lab == "exc" and g.nodes[d].kind == "handler"]
+            for h in hs:
+                n += 1
+                t = h.ast.type
+                types = [norm(x).split(".")[-1] for x in (t.elts if isinstance(t, ast.Tuple) else [t])] if t is not None else ["<bare>"]
+                r = g.reach([h.id])
+                swallows = g.exit in r or any(x != h.id and g.nodes[x].kind not in ("handler",) for x in r if not (g.nodes[x].kind == "stmt" and isinstance(g.nodes[x].ast, ast.Raise)))
+                reraises_only = all(g.nodes[x].kind in ("handler",) or (g.nodes[x].kind == "stmt" and isinstance(g.nodes[x].ast, ast.Raise)) or x == g.raise_exit for x in r)
+                ck.require(reraises_only or set(types) <= {"FileNotFoundError"}, "C05.scan", fn, h,
+                           "the workspace scan is abandoned only when the path does not exist",
+                           f"errors {types} from scanning the workspace are swallowed: the current content is then treated as absent and overwritten without the removal guard")
+    ck.floor("C05.scan", n, 1, "handlers around the workspace scan (build) in the checkout slice")
 
 
 def _check_linkrecord(ck: Checker, slice_) -> None:
